@@ -3,7 +3,10 @@ import Driver.Util
 /- line-protocol driver for C18: the flag-word model.
    `sandbox <flags> <mask>`          -> `some <flags'>` | `none` (panic)
    `assert <flags> <mask>`           -> `pass` | `panic`
-   `run <flags0> <op>*`              -> thread flag words after the ops; op = s<tid>:<mask> | t<tid> (spawn from tid) -/
+   `run <flags0> <op>*`              -> thread flag words after the ops; op = s<tid>:<mask> | t<tid> (spawn from tid)
+   `kwseq <flags0> <call>;<call>…`   -> the `(sandbox & keywords)` core function (`sandboxCfun` over `Cap.keywordTable`), one
+                                        call after the other in one thread; call = k1,k2,… or `-` (no argument);
+                                        prints the flag word after each call, or `panic` (word unchanged) -/
 open JanetModel.Sandbox
 
 def parseOp (s : String) : Option SysOp :=
@@ -17,8 +20,20 @@ def parseOp (s : String) : Option SysOp :=
   | 't' :: rest => (String.ofList rest).toNat?.map .spawn
   | _ => none
 
+def kwSeq (fl : Nat) : List String → List String
+  | [] => []
+  | c :: cs =>
+    let kws := if c == "-" then [] else c.splitOn ","
+    match sandboxCfun keywordTable fl kws with
+    | some fl' => toString fl' :: kwSeq fl' cs
+    | none => "panic" :: kwSeq fl cs
+
 def step (_ : Unit) (toks : List String) : Unit × String :=
   match toks with
+  | ["kwseq", a, cs] =>
+    match a.toNat? with
+    | some fl => ((), " ".intercalate (kwSeq fl (cs.splitOn ";")))
+    | none => ((), "error")
   | ["sandbox", a, b] =>
     match a.toNat?, b.toNat? with
     | some fl, some m => ((), match sandboxOp fl m with | some x => s!"some {x}" | none => "none")
